@@ -13,10 +13,10 @@ PKG=$(python3 -c "import json;print(json.load(open('$SRC/meta.json'))['demo_pack
 cd $WT
 if ! git apply --check $SRC/patch.diff 2>/dev/null; then echo "SEED patch does not apply to current HEAD"; git -C /repo worktree remove --force $WT; exit 2; fi
 cp $SRC/demo_test.go $WT/$PKG/zz_seed_demo_test.go
-echo "== demo WITHOUT change (must pass)"; (cd $WT && timeout 600 go test -count=1 -vet=off -run 'Seed|Demo' ./$PKG 2>&1 | tail -3)
+echo "== demo WITHOUT change (must pass)"; (cd $WT && timeout 600 go test -count=1 -vet=off -run "Seed|Demo|TestC[0-9]" ./$PKG 2>&1 | tail -3)
 git apply $SRC/patch.diff
 echo "== build"; (cd $WT && go build ./... 2>&1 | tail -3)
-echo "== demo WITH change (must fail)"; (cd $WT && timeout 600 go test -count=1 -vet=off -run 'Seed|Demo' ./$PKG 2>&1 | tail -4)
+echo "== demo WITH change (must fail)"; (cd $WT && timeout 600 go test -count=1 -vet=off -run "Seed|Demo|TestC[0-9]" ./$PKG 2>&1 | tail -4)
 rm $WT/$PKG/zz_seed_demo_test.go
 echo "== existing tests of $PKG with change (must pass)"; (cd $WT && timeout 900 go test -count=1 -vet=off ./$PKG 2>&1 | tail -2)
 cd /; git -C /repo worktree remove --force $WT
